@@ -259,6 +259,92 @@ def run(chk):
                 if res.shape != base.shape or not np.allclose(res, base, rtol=0, atol=1e-9, equal_nan=True):
                     chk.fail("layout-dependent", f"{name}: result depends on the memory layout of argument {pos} ('{lay}')", info)
 
+    # ---- (b2) objects keep their own values: the caller overwrites its arrays AFTER handing them to a constructor /
+    # an add_* method and BEFORE the computation; the result must be that of the values at the time of the call ------
+    def holders():
+        from oqupy.bath_dynamics import TwoTimeBathCorrelations
+        bath0 = oqupy.Bath(O, corr)
+
+        def mk_chain(h, a, b, l):
+            chain = oqupy.SystemChain([2, 2])
+            chain.add_site_hamiltonian(0, h)
+            chain.add_nn_hamiltonian(0, a, b)
+            chain.add_site_dissipation(1, l, 0.2)
+            return chain
+
+        def tebd(mps, chain, cc=None):
+            p = oqupy.PtTebd(mps, chain, [None, None], oqupy.PtTebdParameters(dt=0.1, order=2, epsrel=1e-8), dynamics_sites=[0, 1], chain_control=cc)
+            res = p.compute(2, progress_type="silent")
+            return np.array(res["dynamics"][0].states + res["dynamics"][1].states)
+        yield "System", [H, SX + 0j], lambda a: oqupy.System(a[0], gammas=[0.1], lindblad_operators=[a[1]]), \
+            lambda ob: np.array(oqupy.compute_dynamics(ob, initial_state=rho, dt=0.1, num_steps=3, progress_type="silent").states)
+        yield "Bath", [O], lambda a: oqupy.Bath(a[0], corr), \
+            lambda ob: np.array(oqupy.Tempo(oqupy.System(H), ob, par, rho, 0.0).compute(0.3, progress_type="silent").states)
+        yield "Tempo(initial_state)", [rho], lambda a: oqupy.Tempo(oqupy.System(H), bath0, par, a[0], 0.0), \
+            lambda ob: np.array(ob.compute(0.3, progress_type="silent").states)
+
+        def mk_mf(a):
+            sf = oqupy.TimeDependentSystemWithField(lambda t, f: H + 0.1 * f.real * SZ)
+            mfs = oqupy.MeanFieldSystem([sf], field_eom=lambda t, st, f: -0.1 * f + 0.1 * np.trace(st[0] @ SZ))
+            return oqupy.MeanFieldTempo(mfs, [bath0], par, [a[0]], 0.3 + 0j, 0.0)
+        yield "MeanFieldTempo(initial_state_list)", [rho], mk_mf, lambda ob: np.array(ob.compute(0.3, progress_type="silent").system_dynamics[0].states)
+
+        def mk_ctrl(a):
+            c = oqupy.Control(2)
+            c.add_single(1, a[0])
+            c.add_single(0.2, a[1], True)
+            return c
+        yield "Control.add_single", [np.kron(SX, SX) + 0j, np.kron(SY, SY.conj()) + 0j], mk_ctrl, \
+            lambda ob: np.array(oqupy.compute_dynamics(oqupy.System(H), initial_state=rho, dt=0.1, num_steps=3, control=ob, progress_type="silent").states)
+        yield "AugmentedMPS(matrices)", [rho, rho.conj()], lambda a: oqupy.AugmentedMPS([a[0], a[1]]), lambda ob: tebd(ob, mk_chain(H, SX, SZ, SX))
+        yield "AugmentedMPS(rank-3 gammas)", [rho.reshape(1, 4, 1), rho.conj().reshape(1, 4, 1)], lambda a: oqupy.AugmentedMPS([a[0], a[1]]), \
+            lambda ob: tebd(ob, mk_chain(H, SX, SZ, SX))
+        yield "SystemChain.add_*", [H, SX + 0j, SZ + 0j, SX + 0j], lambda a: mk_chain(*a), lambda ob: tebd(oqupy.AugmentedMPS([rho, rho.conj()]), ob)
+
+        def mk_cc(a):
+            cc = oqupy.ChainControl([2, 2])
+            cc.add_single_site_control(a[0], 0, 1)
+            return cc
+        yield "ChainControl.add_single_site_control", [np.kron(SX, SX) + 0j], mk_cc, \
+            lambda ob: tebd(oqupy.AugmentedMPS([rho, rho.conj()]), mk_chain(H, SX, SZ, SX), ob)
+
+        def mk_spt(a):
+            pt = oqupy.process_tensor.SimpleProcessTensor(2, dt=0.1, transform_in=a[2], transform_out=a[3])
+            for k in range(2):
+                pt.set_mpo_tensor(k, a[0])
+                pt.set_cap_tensor(k, a[1])
+            pt.set_cap_tensor(2, a[1])
+            return pt
+        yield "SimpleProcessTensor(transforms).set_*", [(np.arange(16).reshape(1, 1, 4, 4) * 0.01 + np.eye(4)).astype(complex), np.array([1.0 + 0j]),
+                                                       np.eye(4) + 0.1j * np.arange(16).reshape(4, 4), np.eye(4) - 0.05 * np.arange(16).reshape(4, 4) + 0j], mk_spt, \
+            lambda ob: np.array(oqupy.compute_dynamics(oqupy.System(H), initial_state=rho, process_tensor=ob, progress_type="silent").states)
+        ptb = oqupy.pt_tempo_compute(oqupy.Bath(SZ, corr), 0.0, 0.4, parameters=par, progress_type="silent")
+        tab = np.array([[1 + 0.1j * (i - j) if j >= i else np.nan + 1j * np.nan for j in range(4)] for i in range(4)], dtype=complex)
+        yield "TwoTimeBathCorrelations(initial_state)", [rho], lambda a: TwoTimeBathCorrelations(oqupy.System(H), oqupy.Bath(SZ, corr), ptb, initial_state=a[0]), \
+            lambda ob: np.array(ob.occupation(1.0, progress_type="silent")[1])
+        yield "TwoTimeBathCorrelations(system_correlations)", [tab], \
+            lambda a: TwoTimeBathCorrelations(oqupy.System(H), oqupy.Bath(SZ, corr), ptb, initial_state=rho, system_correlations=a[0]), \
+            lambda ob: np.array(ob.occupation(1.0, progress_type="silent")[1])
+
+    for name, arrays, make, use in holders():
+        info = {"holder": name}
+        chk.search_cases += 1
+        chk.count("holder_keeps_own_values")
+        chk.case(info, ("holder", name))
+        try:
+            base = quiet(use, quiet(make, [np.array(a, dtype=complex).copy() for a in arrays]))
+            mine = [np.ascontiguousarray(np.array(a, dtype=complex)) for a in arrays]       # complex128, C-contiguous: what asarray would not copy
+            obj = quiet(make, mine)
+            for a in mine:
+                a[...] = 1.7 - 0.4j
+            got = quiet(use, obj)
+        except Exception as ex:
+            chk.fail("holder-raises", f"{name}: raises {ex!r}", info)
+            continue
+        if got.shape != base.shape or not np.allclose(got, base, rtol=0, atol=1e-9, equal_nan=True):
+            chk.fail("aliases-caller-array:" + name, f"{name}: overwriting the caller's array after it was handed over changes the later result "
+                     f"(by {np.nanmax(np.abs(got - base)):.2e}): the object aliases the caller's buffer", info)
+
     # ---- (c) re-using objects in several computations = fresh objects ------------------------
     for it in range(6 if thorough else 3):
         c1 = oqupy.PowerLawSD(alpha=0.1, zeta=1, cutoff=3.0, cutoff_type="exponential", temperature=0.1)
